@@ -287,6 +287,6 @@ def o_shape(case, T):
 
 
 def build(chk: Check) -> None:
-    chk.sub("resolution_driven", o_res, strategy=s_res_driven(), n={"quick": 16000, "thorough": 2000000})
+    chk.sub("resolution_driven", o_res, cov={"quick": 3000, "thorough": 300000}, strategy=s_res_driven(), n={"quick": 16000, "thorough": 2000000})
     chk.sub("polygon_other_crs", o_poly_other, strategy=s_poly_other(), n={"quick": 2500, "thorough": 150000})
-    chk.sub("shape_driven", o_shape, strategy=s_shape_driven(), n={"quick": 8000, "thorough": 800000})
+    chk.sub("shape_driven", o_shape, cov={"quick": 1500, "thorough": 150000}, strategy=s_shape_driven(), n={"quick": 8000, "thorough": 800000})
